@@ -343,6 +343,13 @@ def run(tier):
     cnt_batches = [[{"op": "timeout", "abs": a, "cnt": 1, "link": False}, {"op": "statx", "dir": 0, "name": 0, "link": False}] for a in (3, 2)] + \
                   [[{"op": "timeout", "abs": a, "cnt": 1, "link": False}] for a in (3, 2, 1)]
     plan.append(("timeout_count", 8, 0, [dict(b=i, reset=(i == 0), ops=b) for i, b in enumerate(cnt_batches)]))
+    # a polling thread that has gone idle (sq_thread_idle = 50 ms): the caller follows the wake-up protocol (enter with
+    # IORING_ENTER_SQ_WAKEUP only when needs_wakeup() says so); every batch after a sleep must still complete
+    if SQPOLL in accepted:
+        idle = [[{"op": "statx", "dir": 0, "name": 0, "link": False}], [{"op": "mkdirat", "dir": 0, "name": 2, "mode": 0, "link": False}],
+                [{"op": "statx", "dir": 0, "name": 2, "link": True}, {"op": "unlinkat", "dir": 0, "name": 2, "rmdir": 1, "link": False}],
+                [{"op": "readv", "h": 0, "len": 1, "link": False}]]
+        plan.append(("sqpoll_idle", 8, SQPOLL, [dict(b=i, reset=(i == 0), sleep_ms=(0 if i == 0 else 300), ops=b) for i, b in enumerate(idle)]))
     if not quick:       # every flag combination on the main ring size as well
         for fl in ops_flags:
             for w in walks[8][:1]:
@@ -496,6 +503,7 @@ def run(tier):
     chk.extra["setup_flags_refused_by_kernel"] = probe["refused"][:40]
     chk.extra["ops_flag_sets_used"] = ops_flags
     chk.extra["ops_flag_sets_skipped"] = skipped_flags
+    chk.extra["sqpoll_idle_wakeup_scenario"] = "exercised" if SQPOLL in accepted else "not exercised: the kernel refuses IORING_SETUP_SQPOLL here; the set-up pointer clause stands alone"
     chk.extra["teardown_runs"] = {"traced": len(truns), "rejected": len(tbad), "skipped": skipped[:10],
                                   "single_mmap_runs": sum(1 for m in tmeta if m[3])}
     chk.extra["expected_failures_confirmed"] = xf
